@@ -206,4 +206,82 @@ theorem runChain_eq (api msg : String) (L : List ConvLevel) (T : List Frame) (hn
       simp only [runChain, ih', Metadata.init, hts, lastBelow_cons_cons]
       simp
 
+/-- (file, function, line) of the listed frames lying in the user file `U`, innermost first. -/
+def userLocs (U : String) (st : List FrameInfo) : List Loc3 :=
+  (st.map FrameInfo.loc).filter (fun p => decide (p.1 = U))
+
+/-- User frames of the traceback of the *unconverted* run, outermost first: per converted function the
+frames it contributes (`outer`, then the frame executing the statement), then the unconverted tail. -/
+def origTraceback (U : String) (L : List ConvLevel) (T : List Frame) : List Frame :=
+  L.flatMap (fun l => l.outer ++ [l.orig]) ++ T.filter (fun f => decide (f.file = U))
+
+/-- The source map's origin for the site names the file, line and function of the frame that executes
+the same statement unconverted (origin inheritance + `OriginResolver`; the function part fails for
+lambdas, which the resolver does not track). -/
+def SiteResolved (U : String) (l : ConvLevel) : Prop :=
+  l.orig.file = U ∧ l.siteOrigin.file = l.orig.file ∧ l.siteOrigin.line = l.orig.line ∧ l.siteOrigin.fn = some l.orig.fn
+
+instance (U : String) (l : ConvLevel) : Decidable (SiteResolved U l) := by unfold SiteResolved; infer_instance
+
+/-! ## The `*` / `**` markers -/
+
+/-- The documented meaning of the markers, outermost frame first: a frame outside `api.py` is listed,
+and it is marked allow-listed (`**`) exactly when its caller is an `api.py` frame (`_call_unconverted`). -/
+def markSpec (conv : String) : Bool → List Frame → List FrameInfo
+  | _, [] => []
+  | callerIsApi, f :: rest =>
+    if f.file = conv then markSpec conv true rest
+    else { FrameInfo.plain f with allowlisted := callerIsApi } :: markSpec conv false rest
+
+def markHead : List FrameInfo → List FrameInfo
+  | [] => []
+  | x :: r => { x with converted := false, allowlisted := true } :: r
+
+theorem markAllow_append_singleton (l : List FrameInfo) (x : FrameInfo) :
+    markAllow (l ++ [x]) = l ++ [{ x with converted := false, allowlisted := true }] := by
+  induction l with
+  | nil => rfl
+  | cons y r ih =>
+    cases r with
+    | nil => simp [markAllow]
+    | cons z r' =>
+      simp only [List.cons_append] at ih ⊢
+      simp only [markAllow]
+      rw [ih]
+
+theorem markAllow_reverse (l : List FrameInfo) : markAllow l.reverse = (markHead l).reverse := by
+  cases l with
+  | nil => rfl
+  | cons x r => simp [markHead, markAllow_append_singleton]
+
+theorem elide_append (conv : String) (X Y : List Frame) (acc : List FrameInfo) :
+    elide conv (X ++ Y) acc = elide conv Y (elide conv X acc) := by
+  induction X generalizing acc with
+  | nil => rfl
+  | cons f X ih =>
+    simp only [List.cons_append, elide]
+    split <;> exact ih _
+
+theorem markHead_markSpec (conv : String) (b : Bool) (B : List Frame) :
+    markHead (markSpec conv b B) = markSpec conv true B := by
+  induction B generalizing b with
+  | nil => rfl
+  | cons f B ih =>
+    simp only [markSpec]
+    split
+    · exact ih true
+    · simp [markHead, FrameInfo.plain]
+
+theorem elide_eq_markSpec (conv : String) (B : List Frame) :
+    elide conv B.reverse [] = (markSpec conv false B).reverse := by
+  induction B with
+  | nil => rfl
+  | cons f B ih =>
+    rw [List.reverse_cons, elide_append, ih]
+    simp only [elide, markSpec]
+    split
+    · rw [markAllow_reverse, markHead_markSpec]
+    · -- f is listed as the outermost frame; what about B's head?  it was called by f, not by api
+      simp [FrameInfo.plain]
+
 end Malt.Errors
